@@ -4,6 +4,7 @@ import (
 	"fmt"
 	"math/rand"
 	"os"
+	"regexp"
 	"strings"
 
 	"verif/internal/corpus"
@@ -122,6 +123,30 @@ func c07(c *ctx) {
 	}
 	cfgs := []config{{name: "ast", v: vPlain, memo: true}, {name: "noast", v: vNoast}, {name: "noastinline", v: vNI}, {name: "noastswitch", v: vNS}, {name: "noastboth", v: vNB}}
 	f := &family{c: c, tag: "c07", configs: cfgs, noexec: true}
+	f.prepareReplay = func(cs *gcase) {
+		// rebuild which state changes are capture-completion / end probes from the witness text (textual order = id)
+		info := &c07info{capState: map[int]bool{}, capAct: map[int]bool{}, endState: -1}
+		re := regexp.MustCompile(`!\s*\{\s*p\.(capd|setEnd|note)\(`)
+		for i, m := range re.FindAllStringSubmatch(cs.rawText, -1) {
+			switch m[1] {
+			case "capd":
+				info.capState[i] = true
+			case "setEnd":
+				info.endState = i
+				info.wrapped = true
+			}
+		}
+		cs.g.Walk(func(_ *gram.Rule, e *gram.Expr) {
+			if e.K == gram.KSeq {
+				for i := 0; i+1 < len(e.Kids); i++ {
+					if e.Kids[i].K == gram.KState && info.capState[e.Kids[i].ID] && e.Kids[i+1].K == gram.KAction {
+						info.capAct[e.Kids[i+1].ID] = true
+					}
+				}
+			}
+		})
+		infos[cs.id] = info
+	}
 	f.stateCode = func(cs *gcase) func(int) string {
 		info := infos[cs.id]
 		return func(id int) string {
